@@ -21,9 +21,13 @@ type c13Params struct {
 	SCut    string `json:"scut"`    // server chunking
 	Late    bool   `json:"late"`    // c1/s1 arrive only after the handshake answer reached the other side
 	Twice   bool   `json:"twice"`   // a second transfer through the same relay after #EXIT:
-	Bound   int    `json:"bound"`   // preemption bound
-	Shard   int    `json:"shard"`
-	NShards int    `json:"nshards"`
+	// WinFirst (with Twice): the client of the first transfer announces the Windows line ending "!\n" (a client
+	// affected by a Windows console): the server frames its CFG with it and the relay reads and forwards it that way;
+	// the second transfer is an ordinary one
+	WinFirst bool `json:"winfirst,omitempty"`
+	Bound    int  `json:"bound"` // preemption bound
+	Shard    int  `json:"shard"`
+	NShards  int  `json:"nshards"`
 }
 
 type c13Stream struct {
@@ -92,7 +96,11 @@ func c13Build(p c13Params) *c13World {
 		id := fmt.Sprintf("12345678%d0100", round+1)
 		trigger := "\x1b7\x07::TRZSZ:TRANSFER:S:1.1.8:" + id + ":0\r\n"
 		sawTrigger := w.clientOut.Has(id[:len(id)-2])
-		act := transferAction{Lang: "go", Version: "1.1.8", Confirm: p.Outcome != "cancel", Newline: "\n", Protocol: 4 + round, SupportBinary: true, SupportDirectory: true}
+		nl := "\n" // the line ending this round's client announces; the server frames its answer with it
+		if p.WinFirst && round == 0 {
+			nl = "!\n"
+		}
+		act := transferAction{Lang: "go", Version: "1.1.8", Confirm: p.Outcome != "cancel", Newline: nl, Protocol: 4 + round, SupportBinary: true, SupportDirectory: true}
 		actJSON, _ := json.Marshal(&act)
 		actLine := "#ACT:" + c13Enc(string(actJSON)) + "\n"
 		if p.Outcome == "badact" {
@@ -108,14 +116,14 @@ func c13Build(p c13Params) *c13World {
 		w.wantACT = append(w.wantACT, "#ACT:"+c13Enc(string(fwdJSON))+"\n")
 
 		cfgSrc := `{"lang":"go","bufsize":10485760,"timeout":20,"protocol":4}`
-		cfgLine := "#CFG:" + c13Enc(cfgSrc) + "\n"
+		cfgLine := "#CFG:" + c13Enc(cfgSrc) + nl
 		if p.Outcome == "badcfg" {
-			cfgLine = "#CFG:!!!not-base64!!!\n"
+			cfgLine = "#CFG:!!!not-base64!!!" + nl
 		}
 		cfg := &transferConfig{Timeout: 20, Newline: "\n", MaxBufSize: 10 * 1024 * 1024}
 		_ = json.Unmarshal([]byte(cfgSrc), cfg)
 		cfgJSON, _ := json.Marshal(cfg)
-		w.wantCFG = append(w.wantCFG, "#CFG:"+c13Enc(string(cfgJSON))+"\n")
+		w.wantCFG = append(w.wantCFG, "#CFG:"+c13Enc(string(cfgJSON))+nl)
 
 		sawACT := func(n int) func() bool {
 			return func() bool {
@@ -467,7 +475,7 @@ func init() {
 			add := func(p c13Params, shards int) {
 				for s := 0; s < shards; s++ {
 					p.Shard, p.NShards = s, shards
-					jobs = append(jobs, vs.MkJob(fmt.Sprintf("%s c%s s%s late=%v twice=%v b%d %d/%d", p.Outcome, p.CCut, p.SCut, p.Late, p.Twice, p.Bound, s, shards), p))
+					jobs = append(jobs, vs.MkJob(fmt.Sprintf("%s c%s s%s late=%v twice=%v b%d %d/%d", p.Outcome, p.CCut, p.SCut, p.Late, p.Twice, p.Bound, s, shards)+map[bool]string{true: " winfirst", false: ""}[p.WinFirst], p))
 				}
 			}
 			if tier == "quick" {
@@ -479,6 +487,8 @@ func init() {
 				add(c13Params{Outcome: "confirm", CCut: "E", SCut: "E", Bound: 1}, 8)
 				add(c13Params{Outcome: "confirm", CCut: "A", SCut: "A", Bound: 1}, 8)
 				add(c13Params{Outcome: "confirm", CCut: "A", SCut: "B", Twice: true, Bound: 0}, 6)
+				add(c13Params{Outcome: "confirm", CCut: "A", SCut: "A", Twice: true, WinFirst: true, Bound: 0}, 2)
+				add(c13Params{Outcome: "confirm", CCut: "B", SCut: "B", Twice: true, WinFirst: true, Bound: 0}, 2)
 				add(c13Params{Outcome: "cancel", CCut: "A", SCut: "A", Bound: 1}, 4)
 				add(c13Params{Outcome: "cancel", CCut: "B", SCut: "B", Late: true, Bound: 1}, 4)
 				return jobs
